@@ -2430,3 +2430,40 @@ def observation_differential_bounded(ctx):
              "witness_confirmed": bool(v),
              "note": (f"first deviation: {str(v[0])[:600]}" if v else "one violation per non-allowed, non-exempt literal, on its line, "
                       "quoting its value; nothing else")} for k, v in bad.items()]
+
+
+# =================================================================== dependency cone: contracts of other files that C02 runs through
+# (read-only reuse: the property id is added at load time, the contracts themselves stay with their owners; a file that
+# fails to import only loses the extension, never this property's own units)
+def _extend_props():
+    import importlib
+    from pyvc import api as _api
+    for mod in ("contracts.c15_language", "contracts.c05_config", "contracts.c01_ts_base", "contracts.c17_rust_context",
+                "contracts.c17_clone"):
+        try:
+            importlib.import_module(mod)
+        except BaseException:  # noqa
+            pass
+    cone = [
+        # language dispatch: which _check_<language> runs, with the configuration _load_config chose
+        "src/core/base.py::MultiLanguageLintRule.check", "src/core/base.py::MultiLanguageLintRule._dispatch_by_language",
+        # generic section loader used (inlined) by MagicNumberRule._try_load_production_config
+        "src/core/linter_utils.py::load_linter_config", "src/core/linter_utils.py::get_metadata",
+        "src/core/linter_utils.py::get_language",
+        # node text of TS/JS and Rust literal / identifier nodes
+        "src/analyzers/typescript_base.py::TypeScriptBaseAnalyzer.extract_node_text",
+        "src/analyzers/typescript_base.py::TypeScriptBaseAnalyzer.parse_typescript",
+        "src/analyzers/rust_base.py::RustBaseAnalyzer.extract_node_text", "src/analyzers/rust_base.py::RustBaseAnalyzer.parse_rust",
+        "src/analyzers/rust_base.py::RustBaseAnalyzer.is_inside_test",
+        # Rust test-code exemption
+        "src/analyzers/rust_context.py::is_inside_test", "src/analyzers/rust_context.py::_is_test_context",
+        "src/analyzers/rust_context.py::has_test_attribute", "src/analyzers/rust_context.py::has_cfg_test_attribute",
+        "src/analyzers/rust_context.py::_get_node_text",
+    ]
+    for t in cone:
+        c = _api.REGISTRY.get(t)
+        if c is not None and "C02" not in c.props:
+            c.props.append("C02")
+
+
+_extend_props()
